@@ -85,6 +85,15 @@ impl Node {
 
     #[cfg(mainline_verif)]
     #[allow(missing_docs)]
+    pub fn verif_with_token(id: Id, address: SocketAddrV4, token: Option<Box<[u8]>>) -> Node {
+        match token {
+            Some(token) => Node::new_with_token(id, address, token),
+            None => Node::new(id, address),
+        }
+    }
+
+    #[cfg(mainline_verif)]
+    #[allow(missing_docs)]
     pub fn verif_last_seen_ns(&self) -> u64 {
         self.0.last_seen.as_nanos()
     }
